@@ -216,20 +216,7 @@ func (e *kvElection) handleHeartbeatFailure(err error) {
 		)...,
 	)
 
-	e.becomeFollower()
-
-	e.mu.RLock()
-	onDemote := e.onDemote
-	e.mu.RUnlock()
-
-	if onDemote != nil {
-		log.Info("leader_demoted",
-			append(e.logWithContext(e.ctx),
-				zap.String("reason", "heartbeat_failure"),
-			)...,
-		)
-		onDemote()
-	}
+	e.demote("heartbeat_failure")
 }
 
 func (e *kvElection) handleHealthCheckFailure() {
@@ -241,18 +228,5 @@ func (e *kvElection) handleHealthCheckFailure() {
 		)...,
 	)
 
-	e.becomeFollower()
-
-	e.mu.RLock()
-	onDemote := e.onDemote
-	e.mu.RUnlock()
-
-	if onDemote != nil {
-		log.Info("leader_demoted",
-			append(e.logWithContext(e.ctx),
-				zap.String("reason", "health_check_failure"),
-			)...,
-		)
-		onDemote()
-	}
+	e.demote("health_check_failure")
 }
